@@ -61,6 +61,8 @@ pub enum SigEnc {
 
 #[derive(Clone, Copy, Debug, Serialize, Deserialize, PartialEq)]
 pub enum PubForm {
+    /// no key bytes at all: HMAC keyed with the empty string (a "placeholder" key)
+    Empty,
     Pem,
     Der,
     Raw,
@@ -599,6 +601,7 @@ pub fn apply(f: &Fault, m: &mut Message, tokens: &[Message], w: &mut World, now:
                 AlgMode::HsWithPub { kid, form, hs } => {
                     h.insert("alg".into(), json!(hs));
                     let secret: Vec<u8> = match form {
+                        PubForm::Empty => Vec::new(),
                         PubForm::Pem => keys::pub_pem(kid).as_bytes().to_vec(),
                         PubForm::Der => keys::pub_der(kid),
                         PubForm::Raw => keys::pub_raw(kid),
